@@ -81,6 +81,9 @@ struct TlsState {
     first_flight_end: usize,
     hang: bool,
     reads: usize,
+    /// the n-th transport write fails once with this kind (a transient condition)
+    write_fault: Option<(usize, io::ErrorKind)>,
+    writes: usize,
 }
 
 #[derive(Clone)]
@@ -189,7 +192,15 @@ impl Read for TlsSim {
 
 impl Write for TlsSim {
     fn write(&mut self, buf: &[u8]) -> io::Result<usize> {
-        self.0.borrow_mut().from_server.extend_from_slice(buf);
+        let mut s = self.0.borrow_mut();
+        let k = s.writes;
+        s.writes += 1;
+        if let Some((at, kind)) = s.write_fault {
+            if at == k {
+                return Err(io::Error::new(kind, "VERIF transient write fault"));
+            }
+        }
+        s.from_server.extend_from_slice(buf);
         Ok(buf.len())
     }
     fn flush(&mut self) -> io::Result<()> {
@@ -274,10 +285,13 @@ fn run_tls_full(server_tls: Option<Arc<rustls::ServerConfig>>, client_cert: bool
         first_flight_end: 0,
         hang: false,
         reads: 0,
+        write_fault: WRITE_FAULT.with(|w| w.get()),
+        writes: 0,
     };
     let sim = TlsSim(Rc::new(RefCell::new(st)));
     let mut shim = Shim::new(None, tls_behave());
     shim.tls = server_tls;
+    shim.auth_reject = AUTH_REJECT.with(|w| w.get());
     let r = {
         let sh = &mut shim;
         let tr = sim.clone();
@@ -686,6 +700,78 @@ impl Family for SslRequests {
     }
 }
 
+
+thread_local! {
+    static WRITE_FAULT: std::cell::Cell<Option<(usize, io::ErrorKind)>> = std::cell::Cell::new(None);
+    static AUTH_REJECT: std::cell::Cell<Option<u64>> = std::cell::Cell::new(None);
+}
+
+/// one transient failure (`Interrupted` / `WouldBlock`, once) of each transport write the server
+/// makes during a TLS session, on the accepting and on the rejecting path: either run_on reports
+/// a transport error, or the client must not notice anything (every reply arrives once, whole,
+/// in order; a rejected client receives its ERR 1045)
+struct TlsWriteFaults {
+    n_writes: usize,
+    reject: bool,
+}
+impl TlsWriteFaults {
+    fn new(reject: bool) -> Self {
+        AUTH_REJECT.with(|w| w.set(if reject { Some(4711) } else { None }));
+        let o = run_tls(Some(pki().server_plain.clone()), false, vec![], usize::MAX);
+        AUTH_REJECT.with(|w| w.set(None));
+        TlsWriteFaults { n_writes: o.st.writes, reject }
+    }
+}
+impl Family for TlsWriteFaults {
+    fn name(&self) -> String {
+        format!("tls-one-transient-write-failure-{}", if self.reject { "rejecting" } else { "accepting" })
+    }
+    fn len(&self) -> u64 {
+        self.n_writes as u64 * 2
+    }
+    fn run(&self, idx: u64, st: &mut Stats) -> Result<(), Violation> {
+        let at = (idx / 2) as usize;
+        let kind = if idx % 2 == 0 { io::ErrorKind::Interrupted } else { io::ErrorKind::WouldBlock };
+        st.nontrivial += 1;
+        st.bump("tls_write_faults");
+        WRITE_FAULT.with(|w| w.set(Some((at, kind))));
+        AUTH_REJECT.with(|w| w.set(if self.reject { Some(4711) } else { None }));
+        let o = run_tls(Some(pki().server_plain.clone()), false, vec![], usize::MAX);
+        WRITE_FAULT.with(|w| w.set(None));
+        AUTH_REJECT.with(|w| w.set(None));
+        st.transitions += o.st.reads as u64;
+        let what = format!("{:?} once at transport write {} of {} ({})", kind, at, self.n_writes, if self.reject { "shim rejects" } else { "shim accepts" });
+        match &o.res {
+            ConnResult::Panic(l, m) => return Err(Violation::new(panic_key(l, m), format!("{}: run_on panicked at {}: {}", what, l, m))),
+            ConnResult::ErrIo(..) => {
+                st.bump("tls_write_fault_reported");
+                return Ok(());
+            }
+            _ => {}
+        }
+        st.bump("tls_write_fault_absorbed");
+        if self.reject {
+            // run_on returned the shim's error: the client must have its ERR 1045
+            if o.res != ConnResult::ErrMarker(4711) {
+                return Err(Violation::new("reject-result", format!("{}: run_on returned {}", what, o.res.short())));
+            }
+            if let Some(e) = &o.st.tls_error {
+                return Err(Violation::new("tls-error", format!("{}: {}", what, e)));
+            }
+            let pk = split_packets(&o.st.decrypted).map_err(|e| Violation::new("decrypted-replies", format!("{}: {}", what, e)))?;
+            let ok = pk.len() == 1 && parse_err(&o.st.decrypted[pk[0].start..pk[0].start + pk[0].len]).map(|e| e.code == 1045 && e.state == b"28000").unwrap_or(false);
+            if !ok {
+                return Err(Violation::new("reject-reply-lost", format!("{}: run_on returned the shim's error but the client decrypted {} bytes in {} packets, not one ERR 1045/28000", what, o.st.decrypted.len(), pk.len())));
+            }
+            return Ok(());
+        }
+        judge(&o, false, &what, st)
+    }
+    fn describe(&self, idx: u64) -> J {
+        json!({"transport_write": idx / 2, "fails_once_with": if idx % 2 == 0 { "Interrupted" } else { "WouldBlock" }, "shim": if self.reject { "rejects" } else { "accepts" }})
+    }
+}
+
 pub fn build(quick: bool) -> Check {
     let mut families: Vec<Box<dyn Family>> = Vec::new();
     for cc in [false, true] {
@@ -698,6 +784,8 @@ pub fn build(quick: bool) -> Check {
     }
     families.push(Box::new(HelloSizes::new(quick)));
     families.push(Box::new(SslRequests));
+    families.push(Box::new(TlsWriteFaults::new(false)));
+    families.push(Box::new(TlsWriteFaults::new(true)));
     for cc in [false, true] {
         let cfg = if cc { pki().server_client_auth.clone() } else { pki().server_plain.clone() };
         let stream = run_tls_with(Some(cfg), cc, vec![], usize::MAX, 0, true).st.to_server;
@@ -707,7 +795,7 @@ pub fn build(quick: bool) -> Check {
     Check {
         id: "C18",
         level: "model_checking",
-        rule: "a live rustls client inside the transport: SSLRequest (plaintext) immediately followed by the ClientHello, then, once the server's flight arrived, Finished (+ client certificate) coalesced with the encrypted HandshakeResponse41 and six pipelined commands, among them a 20000-byte query (several inbound TLS records) answered by a resultset with a 40000-byte cell and 250 rows (115 KB: several outbound records, more than rustls buffers unsent). Schedules: every single cut position of the whole client->server stream (quick: every position of the first 1600 bytes and within 6 bytes of each TLS record header, every 13th elsewhere), every pair of cut positions within SSLRequest+ClientHello (thorough: every pair within the first 1100 bytes), uniform read sizes 1..64; with and without a client certificate; the single cuts again with a TLS 1.2 client; ClientHello sizes (padded with ALPN names) swept across 3.6-4.2 KB, 7.8-8.3 KB, 15.9-16.5 KB and up to 60 KB, coalesced with the SSL request or not; SSL requests in the pre-4.1 layout (naming another user in the clear) and connection-phase sequence ids other than 1, 2; plus a TLS-requesting client against a shim without TLS configuration under every cut of its first flight. Oracle: user name and certificate chain at after_authentication, callback log = script, every server byte after the greeting lies in a well-formed TLS record the client accepts, decrypted replies decode strictly with the right sequence ids, run_on returns Ok; no-config case: Err and no callback.".into(),
+        rule: "a live rustls client inside the transport: SSLRequest (plaintext) immediately followed by the ClientHello, then, once the server's flight arrived, Finished (+ client certificate) coalesced with the encrypted HandshakeResponse41 and six pipelined commands, among them a 20000-byte query (several inbound TLS records) answered by a resultset with a 40000-byte cell and 250 rows (115 KB: several outbound records, more than rustls buffers unsent). Schedules: every single cut position of the whole client->server stream (quick: every position of the first 1600 bytes and within 6 bytes of each TLS record header, every 13th elsewhere), every pair of cut positions within SSLRequest+ClientHello (thorough: every pair within the first 1100 bytes), uniform read sizes 1..64; with and without a client certificate; the single cuts again with a TLS 1.2 client; ClientHello sizes (padded with ALPN names) swept across 3.6-4.2 KB, 7.8-8.3 KB, 15.9-16.5 KB and up to 60 KB, coalesced with the SSL request or not; SSL requests in the pre-4.1 layout (naming another user in the clear) and connection-phase sequence ids other than 1, 2; each transport write of a TLS session failing once with Interrupted / WouldBlock, with an accepting and a rejecting shim; plus a TLS-requesting client against a shim without TLS configuration under every cut of its first flight. Oracle: user name and certificate chain at after_authentication, callback log = script, every server byte after the greeting lies in a well-formed TLS record the client accepts, decrypted replies decode strictly with the right sequence ids, run_on returns Ok; no-config case: Err and no callback.".into(),
         assumptions: vec![
             "ring's randomness is not owned: handshake bytes differ between runs and with a client certificate the stream length varies by a byte or two; cut positions are taken from the stream actually produced, the verdict does not depend on the random values".into(),
             "flush behaviour is C12's subject; here written bytes are visible to the client at once".into(),
@@ -716,6 +804,6 @@ pub fn build(quick: bool) -> Check {
         exhaustive: true,
         caps_hit: vec![],
         families,
-        required: vec!["ssl_request_variants", "client_hello_beyond_4096_bytes", "client_hello_in_two_records", "tls12_handshakes", "splits_inside_client_hello", "splits_inside_ssl_request", "ssl_request_coalesced_with_client_hello", "client_chains_delivered", "refusals", "tls_records_from_server"],
+        required: vec!["tls_write_faults", "ssl_request_variants", "client_hello_beyond_4096_bytes", "client_hello_in_two_records", "tls12_handshakes", "splits_inside_client_hello", "splits_inside_ssl_request", "ssl_request_coalesced_with_client_hello", "client_chains_delivered", "refusals", "tls_records_from_server"],
     }
 }
